@@ -1,7 +1,7 @@
 // ===== contracts/halo-router/src/contract.rs (function text extracted from /repo) =====
 //%fn contracts/halo-router/src/contract.rs | - | optional_addr_validate
 //%%sig
-    ensures r is Ok ==> (addr is Some <==> r->Ok_0 is Some) && (addr is Some ==> r->Ok_0->Some_0.0@ == addr->Some_0@),
+    ensures /*[C13,C11,C07 router.optional-addr]*/ r is Ok ==> (addr is Some <==> r->Ok_0 is Some) && (addr is Some ==> r->Ok_0->Some_0.0@ == addr->Some_0@),
 //%end
 
 // the self-call that performs hop k of a route; only the LAST hop carries the final recipient
